@@ -89,10 +89,36 @@ pub fn set_chooser(chooser: Option<Chooser>) {
 /// a chooser is installed and has an opinion.
 pub fn choose(len: usize) -> Option<usize> {
     let raw = CHOOSER.load(Ordering::Relaxed);
-    if raw == 0 || len == 0 {
+    if len == 0 {
         return None;
+    }
+    if raw == 0 {
+        return env_seeded_choice(len);
     }
     // SAFETY: only `set_chooser` writes this slot, always from a `Chooser`.
     let chooser: Chooser = unsafe { std::mem::transmute::<usize, Chooser>(raw) };
     chooser(len).map(|i| i % len)
+}
+
+/// For process-level simulation of the real binary (no harness code inside the
+/// process to install a chooser): with `CHESS_VERIF_RT_SEED=<u64>` in the
+/// environment every run-time random draw comes from a SplitMix64 stream, so
+/// one seed is one exactly repeatable game sequence. Unset => `None` (the
+/// engine's own randomness).
+fn env_seeded_choice(len: usize) -> Option<usize> {
+    static STREAM: std::sync::Mutex<Option<Option<u64>>> = std::sync::Mutex::new(None);
+    let mut guard = STREAM.lock().unwrap();
+    let state = guard
+        .get_or_insert_with(|| {
+            std::env::var("CHESS_VERIF_RT_SEED")
+                .ok()
+                .and_then(|v| v.trim().parse::<u64>().ok())
+        })
+        .as_mut()?;
+    *state = state.wrapping_add(0x9E37_79B9_7F4A_7C15);
+    let mut z = *state;
+    z = (z ^ (z >> 30)).wrapping_mul(0xBF58_476D_1CE4_E5B9);
+    z = (z ^ (z >> 27)).wrapping_mul(0x94D0_49BB_1331_11EB);
+    z ^= z >> 31;
+    Some((z % len as u64) as usize)
 }
